@@ -1,12 +1,14 @@
-THEOREMS = ["Lbfgsb.C02.evals_in_box", "Lbfgsb.C02.fixed_never_move", "Lbfgsb.C02.clip_lands_in_box"]
-MODULES = ["LbfgsbVerif.Props.C02"]
+THEOREMS = ["Lbfgsb.C02.evals_in_box", "Lbfgsb.C02.fixed_never_move", "Lbfgsb.C02.clip_lands_in_box", "Lbfgsb.C02.getBounds_ok"]
+MODULES = ["LbfgsbVerif.Props.C02", "LbfgsbVerif.Props.C02Bounds"]
 MONITORS = ["C02"]
 N_QUICK, N_THOROUGH = 400, 4000
 COMMON = {}
 ASSUMPTIONS = ["objectives finite-valued on the box (no NaN)", "SciPy approx_derivative keeps its stencil inside the bounds it is given (monitored on every call)"]
 RULE = ("random runs: convex and non-convex families and the package's benchmarks, all box kinds (bounds with non-representable "
         "values), all gradient modes, random maxcor/maxls/maxiter/maxfun; every point received by fun/jac/callback and the result "
-        "is tested with exact comparisons; non-trivial = at least one iteration performed")
+        "is tested with exact comparisons; non-trivial = at least one iteration performed; plus calls of get_bounds on generated valid and "
+        "malformed inputs (None entries, equal/reversed/NaN/infinite bounds, wrong lengths, empty start, start outside by one ulp), each "
+        "compared with the Lean model of the validation (accept/reject, error kind, arrays bit for bit)")
 
 
 def features(r):
